@@ -201,6 +201,9 @@ def main() -> None:
         try:    # modules that start this run without a usable cache entry (meta missing or abandoned)
             if "nometa" not in info:
                 info["nometa"] = sorted(i for i, st in g.items() if st.meta is None)
+                # modules that start without an old interface hash: no cache entry was *found* for them (an entry
+                # that was found and then rejected by validate_meta still hands its interface hash on)
+                info["nohash"] = sorted(i for i, st in g.items() if not st.interface_hash)
                 # the cached lists load_graph followed for modules with a usable entry (user modules only)
                 mv = {}
                 for i, st in g.items():
